@@ -80,7 +80,9 @@ enum : uint32_t {
     F_TWICE = 128,    // free: call twice in a row
     F_FORK = 256,     // the caller's process identity changes before this op (object inherited by a forked child)
     F_BOUNDARY = 512, // X_CLEAN: operate on memory placed at a 4 GiB address boundary
-    F_NESTED = 1024,  // P_INIT: the entropy callback of this generator draws from generator op.c of the same caller
+    F_NESTED = 1024,
+    F_MOVED = 2048,   // the caller moved the state object to another address (plain struct copy) before this op
+     // P_INIT: the entropy callback of this generator draws from generator op.c of the same caller
 };
 
 struct Op {
@@ -116,6 +118,7 @@ struct Plan {
     bool os_echo = false;         // OS stub may 'deliver' exactly the bytes the buffer already holds (a legal, if unlikely, answer)
     bool sleep_interrupt = false; // simulated sleeps may be interrupted (EINTR)
     uint64_t clock_step_ns = 0;   // simulated time that passes per OS call
+    int64_t clock_jump_s = 0;     // the wall clock is stepped by this many seconds (either direction) at the 2nd and 5th OS call of a request
 };
 Json plan_to_json(const Plan &p);
 bool plan_from_json(const Json &j, Plan &p);
@@ -149,7 +152,7 @@ enum Ctr {
     CT_F_DELIVERY_SHORT, CT_F_DELIVERY_ZERO, CT_F_DELIVERY_FULL,
     CT_F_OS_EINTR, CT_F_OS_EAGAIN, CT_F_OS_PERM, CT_F_OS_OK, CT_F_OS_OPENFAIL, CT_F_OS_SHORTREAD,
     CT_F_OS_STALE_ERRNO, CT_F_OS_SCRIBBLE, CT_F_DIRTY, CT_F_ABANDON, CT_F_FREE_INJECTED, CT_F_ALLOCFAIL_RUNS,
-    CT_F_STACK_PAINT, CT_F_OS_ECHO, CT_F_SLEEP_INTERRUPTED, CT_F_SLEEPS, CT_F_CLOCK_READS, CT_F_FORK, CT_F_BOUNDARY, CT_F_NESTED_DRAW,
+    CT_F_STACK_PAINT, CT_F_OS_ECHO, CT_F_SLEEP_INTERRUPTED, CT_F_SLEEPS, CT_F_CLOCK_READS, CT_F_FORK, CT_F_BOUNDARY, CT_F_NESTED_DRAW, CT_F_MOVED, CT_F_CLOCK_JUMP, CT_F_C_HANDLE,
     // probes
     CT_P_HASH_TOPUP_CONTINUE, CT_P_HASH_TOPUP_EXACT, CT_P_HASH_TOPUP_SHORT, CT_P_HASH_EMPTY_UPDATE, CT_P_HASH_NULL_UPDATE,
     CT_P_HASH_FINAL, CT_P_HASH_REINIT_MID, CT_P_HASH_INIT_AFTER_FREE, CT_P_HASH_INIT_AFTER_FINAL,
